@@ -13,7 +13,7 @@ import os
 from ..engine import VERIF, load_json
 from ..facts import callee, show, site, unwrap, walk
 from ..symx import TooManyPaths, all_calls, cshow, paths_of, tshow
-from ..terms import is_call, mentions, same, subterms
+from ..terms import is_call, mentions, opt_polarity, same, subterms
 
 SENDS = {"ipp::client::non_blocking::AsyncIppClient::send": ("async-client", ("async-client-tls", "async-client-rustls")),
          "ipp::client::blocking::IppClient::send": ("client", ("client-tls", "client-rustls"))}
@@ -58,7 +58,17 @@ def check_statics(run, F, T=None):
         T = load_json(os.path.join(VERIF, "tables", "danger.json"))
     for cpath, c in F.consts.items():
         if c["dk"].startswith("Static") and cpath.startswith("ipp::client"):
-            run.ob("R-TLSSTATIC", "static %s reviewed" % cpath, cpath in T["reviewed_statics"],
+            # a reviewed static is recognised by what it is - its name, its type and its initialiser - not by the function it happens to be declared in
+            rev = None
+            for rp, spec in T["reviewed_statics"].items():
+                if isinstance(spec, dict) and cpath.split("::")[-1] == spec["name"] and c["ty"] == spec["ty"]:
+                    ib = F.hir.get(cpath)
+                    if ib is not None:
+                        cs_ = {callee(x) for x in walk(ib["body"]) if callee(x)}
+                        ds_ = {x["res"].get("path") for x in walk(ib["body"]) if x.get("k") == "path" and x.get("res", {}).get("r") == "def" and x["res"].get("dk") == "Fn"}
+                        if cs_ <= set(spec["init_calls"]) and ds_ <= set(spec["init_defs"]) and ds_:
+                            rev = rp
+            run.ob("R-TLSSTATIC", "static %s reviewed" % cpath, rev is not None,
                    "process-wide static %s: %s in the client module is not on the reviewed list; state shared between clients cannot depend on one client's target, "
                    "credentials or opt-out flag" % (cpath, c["ty"]), "%s:%s" % (c["file"], c["line"]), key="R-TLSSTATIC|%s" % cpath)
 
@@ -67,14 +77,28 @@ BUILDER_TYPES = ("native_tls::TlsConnectorBuilder::", "native_tls::TlsConnector:
                  "rustls::ClientConfig::", "rustls::client::", "rustls::RootCertStore::", "rustls::crypto::")
 
 
+def verifier_internal(F, T):
+    """Inherent helper methods of the accept-all verifier that only the verifier's own methods call: part of the verifier, which is gated
+    as a whole at its construction site (a helper that anything else calls is not exempt)."""
+    own = {p for p, b in F.hir.items() if b.get("impl_self") == T["accept_all_verifier"] and not b.get("impl_trait") and b.get("kind") == "AssocFn"}
+    out = set()
+    for h in own:
+        callers = [b for p, b in F.hir.items() if p != h and any((callee(x) == h or x.get("resolved") == h or (isinstance(x.get("f"), dict) and x["f"].get("res", {}).get("resolved") == h))
+                                                                  for x in walk(b["body"]))]
+        if callers and all(b.get("impl_self") == T["accept_all_verifier"] for b in callers):
+            out.add(h)
+    return out
+
+
 def check_builder_calls(run, F, T):
     """Every option the clients set on the HTTP / TLS stacks is a reviewed one: an option that is not a 'danger' API can still make a
     correctly certified server fail (SNI off, protocol version pins, ALPN) or change whom the client trusts (extra roots, built-in roots off)."""
     reviewed = set(T.get("reviewed_builder_calls", []))
     n = 0
     seen = set()
+    internal = verifier_internal(F, T)
     for path, body in F.hir.items():
-        if not path.startswith("ipp::client") or "::tests::" in path:
+        if not path.startswith("ipp::client") or "::tests::" in path or path in internal:
             continue
         for x in walk(body["body"]):
             c = callee(x) or ""
@@ -127,7 +151,7 @@ def check(run, views, tier):
             for n in walk(body["body"]):
                 c = callee(n)
                 if c and (c in T["apis"] or "danger" in c.lower()):
-                    if body.get("impl_self") == T["accept_all_verifier"] and body.get("impl_trait") in T["verifier_traits"]:
+                    if body.get("impl_self") == T["accept_all_verifier"] and (body.get("impl_trait") in T["verifier_traits"] or path in verifier_internal(F, T)):
                         continue  # the accept-all verifier's own methods; gated at its construction site
                     danger_nodes[id(n)] = (c, body, n)
                 if n.get("k") in ("call", "struct", "path") and (n.get("ctor") == T["accept_all_verifier"] or n.get("path") == T["accept_all_verifier"]):
@@ -202,6 +226,7 @@ def check(run, views, tier):
                 reach_nodes = {id(x[3]) for x in subterms(send_t) if x[0] == "call" and len(x) > 3}
                 fors = [t for t, _ in calls if t[1] == "<for>" and flag_term(t[2][0], ROOTS)]
                 sunk = False
+                split_seen = set()
                 why = "no loop over self.0.%s on this path" % ROOTS
                 for f in fors:
                     for bp in f[3]["paths"]:
@@ -220,7 +245,17 @@ def check(run, views, tier):
                                 # garbage DER), its from_pem parses lazily - the reviewed order is PEM, then DER as the fallback inside the closure
                                 direct = [x[1] for x in subterms(cert) if x[0] == "call"]
                                 order_ok = not (any("from_der" in c for c in direct) and not any("from_pem" in c for c in direct))
+                                # the same decision written as a match (`match from_pem(d) { Ok(c) => c, Err(_) => from_der(d)? }`): one body path per
+                                # decoder, the DER one under the condition that PEM was tried on the same element and failed
+                                pem_conds = [c for c in bp.conds if c[0] == "match" and is_call(c[1]) and "from_pem" in c[1][1] and any(x[0] == "elem" for x in subterms(c[1]))]
+                                pem_cond_pol = opt_polarity(pem_conds[-1]) if pem_conds else None
+                                if from_elem and flows and pem and not der and pem_cond_pol is True:
+                                    split_seen.add("pem")
+                                elif from_elem and flows and der and not pem and pem_cond_pol is False:
+                                    split_seen.add("der-after-pem")
                                 if from_elem and pem and der and flows and order_ok:
+                                    sunk = True
+                                elif split_seen == {"pem", "der-after-pem"}:
                                     sunk = True
                                 else:
                                     why = "root sink %s: from loop element=%s, PEM parse=%s, DER fallback=%s, PEM tried first=%s, store reaches the connection=%s" % (
